@@ -3,7 +3,8 @@
 //! Set A (default build) — shape classes (DESIGN §2.5): zero; sub-byte; byte-aligned non-limb;
 //! `BYTES % 8 == 0 && BITS % 64 != 0` (60, 63, 121, 127, 250, 255: whole-limb decode fast path
 //! with a non-trivial mask); limb-aligned; RLP 55/56-byte boundary (440/441/448); SCALE compact
-//! limit (535/536); DER length-form boundaries (1024, 2048). BITS % 8 covers every residue.
+//! limit (535/536); DER length-form boundaries (1024, 2048); more than 64 limbs (4160: anything
+//! that keeps one flag per limb in a u64 breaks there). BITS % 8 covers every residue.
 //!
 //! Set B (cargo feature `widths-b`, built by the thorough tier into its own target directory) —
 //! 42 further widths of the same shape classes (other residues, other limb counts incl. 9..15
@@ -11,9 +12,9 @@
 //! depends on the particular widths of set A.
 
 #[cfg(not(feature = "widths-b"))]
-pub const WIDTHS: &[usize] = &[0, 1, 2, 3, 7, 8, 12, 13, 16, 30, 31, 32, 33, 60, 63, 64, 65, 72, 100, 121, 127, 128, 129, 160, 192, 200, 250, 255, 256, 257, 320, 384, 440, 441, 448, 512, 520, 535, 536, 768, 1024, 2048, 4096];
+pub const WIDTHS: &[usize] = &[0, 1, 2, 3, 7, 8, 12, 13, 16, 30, 31, 32, 33, 60, 63, 64, 65, 72, 100, 121, 127, 128, 129, 160, 192, 200, 250, 255, 256, 257, 320, 384, 440, 441, 448, 512, 520, 535, 536, 768, 1024, 2048, 4096, 4160];
 #[cfg(feature = "widths-b")]
-pub const WIDTHS: &[usize] = &[4, 5, 6, 9, 15, 24, 40, 48, 56, 57, 61, 66, 80, 96, 112, 120, 126, 130, 136, 184, 191, 193, 224, 248, 264, 272, 300, 400, 447, 449, 504, 528, 576, 600, 640, 704, 832, 896, 960, 1000, 1536, 3000];
+pub const WIDTHS: &[usize] = &[4, 5, 6, 9, 15, 24, 40, 48, 56, 57, 61, 66, 80, 96, 112, 120, 126, 130, 136, 184, 191, 193, 224, 248, 264, 272, 300, 400, 447, 449, 504, 528, 576, 600, 640, 704, 832, 896, 960, 1000, 1536, 3000, 4224];
 
 /// Widths small enough to enumerate every value / every short input.
 #[cfg(not(feature = "widths-b"))]
@@ -88,6 +89,7 @@ macro_rules! for_width {
             1024 => $f::<1024, 16>($($a),*),
             2048 => $f::<2048, 32>($($a),*),
             4096 => $f::<4096, 64>($($a),*),
+            4160 => $f::<4160, 65>($($a),*),
             other => panic!("width {other} is not monomorphised in this build (set A)"),
         }
     };
@@ -140,6 +142,7 @@ macro_rules! for_width {
             1000 => $f::<1000, 16>($($a),*),
             1536 => $f::<1536, 24>($($a),*),
             3000 => $f::<3000, 47>($($a),*),
+            4224 => $f::<4224, 66>($($a),*),
             other => panic!("width {other} is not monomorphised in this build (set B)"),
         }
     };
